@@ -82,6 +82,25 @@ class Check(BaseCheck):
                 # the same mesh in a very small length unit (coordinates ~1e-6 .. 1e-8: volumes down to 1e-24): orientation is scale free
                 v = v * 10.0 ** (-rng.uniform(5.5, 8.0)); name += "+tiny"
             yield dict(v=v, t=t, name=name, pres=c.get("pres"), vdtype=vd)
+        # non-manifold complexes (must be rejected): two closed, individually consistent surfaces glued along one edge (the common edge carries two
+        # half-edges in each direction), both outward / one reversed / with a flipped triangle; three discs on a common rim
+        gv, gt = gen.glued_tetras()
+        cube_t = np.array([[0, 2, 1], [0, 3, 2], [4, 5, 6], [4, 6, 7], [0, 1, 5], [0, 5, 4], [1, 2, 6], [1, 6, 5], [2, 3, 7], [2, 7, 6], [3, 0, 4], [3, 4, 7]])
+        cube_v = np.array([[0, 0, 0], [1, 0, 0], [1, 1, 0], [0, 1, 0], [0, 0, 1], [1, 0, 1], [1, 1, 1], [0, 1, 1]], float)
+        # second cube shifted by (1, 1, 0): it shares the vertical edge (1,1,0)-(1,1,1) = its own vertices 0 and 4
+        c2 = cube_t + 8
+        c2 = np.where(c2 == 8, 2, np.where(c2 == 12, 6, c2))
+        keep = [i for i in range(16) if i not in (8, 12)]
+        ren = {old: new for new, old in enumerate(keep)}
+        cv = np.vstack([cube_v, cube_v + np.array([1.0, 1.0, 0.0])])[keep]
+        ct = np.vectorize(ren.get)(np.vstack([cube_t, c2]))
+        for nm, (nv_, nt_) in (("glued-tetras", (gv, gt)), ("glued-cubes", (cv, ct)), ("theta", gen.theta(5))):
+            nt_ = np.asarray(nt_)
+            yield dict(v=np.asarray(nv_, float), t=nt_, name="nonmanifold:" + nm)
+            half = len(nt_) // 2
+            t_rev = nt_.copy(); t_rev[half:] = t_rev[half:][:, [0, 2, 1]]
+            yield dict(v=np.asarray(nv_, float), t=t_rev, name="nonmanifold:" + nm + ":second-part-reversed")
+            yield dict(v=np.asarray(nv_, float), t=nt_[:, [0, 2, 1]], name="nonmanifold:" + nm + ":all-reversed")
         # narrow index dtypes on meshes with more than 256 / many vertices (index arithmetic must not overflow)
         rng = gen.rng_for(self.seed, "c10-dtype")
         v, t = gen.icosphere(3)
